@@ -57,6 +57,9 @@ CiRules == ReleaseRules("ci.release") \cup
   R("ci.variant", "name", "empty", "reject"), R("ci.variant", "name", "none", "reject"), R("ci.variant", "name", "int", "reject"),
   R("ci.variant", "type", "unknown", "reject"), R("ci.variant", "type", "upper", "reject"), R("ci.variant", "type", "none", "reject"),
   R("ci.variant", "arches", "emptyset", "reject"), R("ci.variant", "arches", "none", "reject"), R("ci.variant", "arches", "str", "reject"), R("ci.variant", "arches", "archlist", "na"),
+  \* a set whose one element is no architecture name (a variant without children, so that nothing else objects)
+  R("ci.leafvariant", "arches", "set_of_int", "reject"), R("ci.leafvariant", "arches", "set_of_none", "reject"),
+  R("ci.leafvariant", "arches", "set_of_blank", "reject"),
   R("ci.childvariant", "arches", "foreign", "reject"),
   \* an architecture the TOP-level ancestor has but the direct parent lacks (needs three levels)
   R("ci.grandchild", "arches", "foreign_ancestor", "reject"),
@@ -105,6 +108,7 @@ TiRules == {
   R("ti.childvariant", "uid", "misaligned", "reject"),
   R("ti.images", "image_paths", "absolute", "reject"), R("ti.images", "platforms", "unreferenced", "reject"),
   R("ti.images", "image_paths", "int", "na"),
+  R("ti.images", "image_paths", "table_none", "na"),      \* a platform's whole table replaced by None
   \* the absolute path sits under an image name that another platform lists too (first / last platform holding it)
   R("ti.sharedimages", "image_paths", "absolute_shared", "reject"), R("ti.sharedimages", "image_paths", "absolute_shared_last", "reject"),
   R("ti.images", "platforms", "arch_unreferenced", "reject"),     \* images under the tree arch itself, arch missing from tree.platforms
@@ -133,7 +137,7 @@ DiRules == {
 Rules == ComposeRules \cup CiRules \cup ImageRules \cup TiRules \cup DiRules
 
 \* node kinds a dump of each format visits and validates (composeinfo.py / images.py / treeinfo.py serialize chains)
-Walk == [ composeinfo |-> {"compose", "compose+label", "ci.release", "ci.base_product", "ci.variant", "ci.childvariant", "ci.grandchild", "ci.vrelease"},
+Walk == [ composeinfo |-> {"compose", "compose+label", "ci.release", "ci.base_product", "ci.variant", "ci.childvariant", "ci.grandchild", "ci.leafvariant", "ci.vrelease"},
           images      |-> {"compose", "compose+label", "img.image", "img.plainimage", "img.twinimage"},
           rpms        |-> {"compose", "compose+label"},
           modules     |-> {"compose", "compose+label"},
